@@ -273,6 +273,20 @@ func init() {
 				return true
 			})
 			m := orderdom.New(info, names)
+			// the hand-written form of Every: `for _, done := range s.<flags> { if !done { return false } }`
+			nLoops := 0
+			m.RangeEvery = func(rs *ast.RangeStmt) string {
+				if f := prog.SelField(info, rs.X); f != nil {
+					if mp, ok := f.Type().Underlying().(*types.Map); ok {
+						if b, ok := mp.Elem().Underlying().(*types.Basic); ok && b.Info()&types.IsBoolean != 0 {
+							nLoops++
+							names["range:"+f.Name()] = f.Name()
+							return f.Name()
+						}
+					}
+				}
+				return ""
+			}
 			res := m.CheckFunc(ic.Decl.Body, nil, func(e odEnv) orderdom.Value {
 				return orderdom.Bool(e.Bool["sourceRunnerIDsComplete"] && e.Bool["operatorIDsComplete"])
 			})
